@@ -56,10 +56,11 @@ def gen_program(rng: random.Random, mapping: str, big: bool = False) -> dict:
     p = g.program()
     if big:
         # one contiguous block longer than an IPS record can hold
-        n = rng.choice([0x10000, 0x10123, 0xFFFF + 1, 2 * 0xFFFF + 5])
+        n = rng.choice([0x10000, 0x10123, 0xFFFF + 1, 2 * 0xFFFF + 5, 0xFFFF - 4, 2 * 0xFFFF - 4, 0xFFFF - 3])      # with the 4 bytes around it: exactly k x 65535
         p["files"]["big.bin"] = (rng.randbytes(4001) * (n // 4001 + 1))[:n]
         p["prog"] += [{"k": "org", "e": E(0xD00000 if rom == "high" else 0x108000)}, {"k": "data", "d": "db", "es": [E(1)]}, {"k": "incbin", "f": "big.bin"},
-                      {"k": "label", "n": "after_big"}, {"k": "data", "d": "dl", "es": [E("after_big")]}]
+                      {"k": "label", "n": "after_big"}, {"k": "data", "d": "dl", "es": [E("after_big")]},
+                      {"k": "org", "e": E(0xD50000 if rom == "high" else 0x158000)}]      # the big block ends here: its length is exactly n + 4
     # use the command-line definitions where they are visible to the whole program
     tail = [{"k": "if", "c": E("DEFA"), "t": [{"k": "data", "d": "dw", "es": [E("DEFA"), E("DEFA", "+", 1)]},
                                               {"k": "ins", "m": "lda", "shape": "imm", "sz": "w", "e": E("DEFA")}], "e": [{"k": "data", "d": "db", "es": [E(0xD0)]}]},
@@ -73,6 +74,10 @@ def gen_program(rng: random.Random, mapping: str, big: bool = False) -> dict:
              {"k": "call", "n": "shadowD", "as": [E(0x41), E(0x1234)]},
              {"k": "for", "v": "DEFB", "a": E(0), "b": E(2), "body": [dbn("DEFB")]},
              {"k": "scope", "n": "nsD", "b": [{"k": "label", "n": "DEFA"}, {"k": "data", "d": "dl", "es": [E("DEFA")]}]}]
+    # a translation table with accented letters and kana: the file front ends read the same characters as the in-memory API is handed
+    p.setdefault("tables", {})["uni_c12.tbl"] = [["8a", "\u00e9"], ["8b", "\u30a2"], ["8c", "\u00df"], ["01", "c"], ["02", "a"], ["03", "f"]]
+    tail += [{"k": "block", "b": [{"k": "table", "f": "uni_c12.tbl"}, {"k": "text", "t": "caf\u00e9 \u30a2\u00dfa"}, {"k": "label", "n": "after_uni"},
+                                  {"k": "data", "d": "dl", "es": [E("after_uni")]}]}]
     # a directory of the project's files, as text: a quoted string of .ascii is data, never a path
     tail += [{"k": "ascii", "t": name} for name in list(p["files"])[:3] + ["t.s"]]
     base = 0xC25000 if rom == "high" else 0x03A000
